@@ -9,9 +9,8 @@ use unic_locale_impl::Locale;
 type Triple = (Language, Option<Script>, Option<Region>);
 
 fn triple_json(t: &Triple) -> Value {
-    json!([b(t.0.as_str()),
-           t.1.map(|s| b(s.as_str())).unwrap_or_else(|| json!([])),
-           t.2.map(|s| b(s.as_str())).unwrap_or_else(|| json!([]))])
+    json!([t.0.as_str(), t.1.map(|s| s.as_str().to_string()).unwrap_or_default(),
+           t.2.map(|s| s.as_str().to_string()).unwrap_or_default()])
 }
 
 fn mk(l: &[u8], s: &[u8], rg: &[u8]) -> Option<Triple> {
